@@ -47,6 +47,9 @@ type callPlan struct {
 	from, to  int
 	latencyMs int
 	cancelMs  int // -1: never
+	// cancelOnReply: the caller gives up at the very instant the (first) response reaches its node - the response
+	// and the cancellation race inside the requester
+	cancelOnReply bool
 }
 
 type attempt struct {
@@ -72,6 +75,9 @@ type callRec struct {
 	err        error
 	data       []byte
 	attempts   []*attempt
+	cancel     func()
+	onReply    bool
+	cancelled  time.Duration // instant of the cancellation at reply delivery, -1 if none
 }
 
 func runC17(t *rapid.T) {
@@ -96,6 +102,8 @@ func runC17(t *rapid.T) {
 		}
 		if simkit.Chance(t, "cancel", 1, 5) {
 			p.cancelMs = simkit.Int(t, "cancelms", 0, 7000)
+		} else if simkit.Chance(t, "cancelonreply", 1, 6) {
+			p.cancelOnReply = true
 		}
 		plans[i] = p
 	}
@@ -158,6 +166,18 @@ func runC17(t *rapid.T) {
 		defer mu.Unlock()
 		if a, ok := byReqID[msgID(data)]; ok {
 			a.respAt = append(a.respAt, simrt.C.Elapsed())
+			for _, c := range calls {
+				if c == nil || !c.onReply || c.cancel == nil || c.cancelled >= 0 {
+					continue
+				}
+				for _, ca := range c.attempts {
+					if ca == a {
+						c.cancelled = simrt.C.Elapsed()
+						simkit.Fault("cancel_at_reply_delivery")
+						c.cancel()
+					}
+				}
+			}
 		}
 		return data
 	}
@@ -182,7 +202,7 @@ func runC17(t *rapid.T) {
 	for i, p := range plans {
 		i, p := i, p
 		payload := makePayload(i, p.latencyMs)
-		c := &callRec{Call: i, From: p.from, To: p.to, HandlerMs: p.latencyMs, CancelMs: p.cancelMs}
+		c := &callRec{Call: i, From: p.from, To: p.to, HandlerMs: p.latencyMs, CancelMs: p.cancelMs, onReply: p.cancelOnReply, cancelled: -1}
 		calls[i] = c
 		byPayload[string(payload)] = c
 		k.Go(fmt.Sprintf("call%d", i), nodes[p.from].name, func() {
@@ -192,6 +212,7 @@ func runC17(t *rapid.T) {
 				simrt.C.AfterFunc(time.Duration(p.cancelMs)*time.Millisecond, 0, cancel)
 			}
 			mu.Lock()
+			c.cancel = cancel
 			c.invoked = simrt.C.Elapsed()
 			c.InvokedAt = c.invoked.String()
 			mu.Unlock()
@@ -272,6 +293,9 @@ func runC17(t *rapid.T) {
 		cancelAt := time.Duration(1 << 62)
 		if c.CancelMs >= 0 {
 			cancelAt = time.Duration(c.CancelMs) * time.Millisecond
+		}
+		if c.cancelled >= 0 {
+			cancelAt = c.cancelled
 		}
 		for ai, a := range c.attempts {
 			if len(a.respAt) == 0 {
